@@ -25,6 +25,8 @@ def queries(tier):
                         if 1 <= iss <= nq and (blk >> (iss - 1)) & 1:
                             continue  # a blocked actor cannot issue a simcall
                         for op in OPS:
+                            if tier == "quick" and op == 1 and nq > 0:
+                                continue  # (lock = lock_async + wait_for covers it; lock_async alone on queued shapes is in the thorough tier)
                             qs.append(Query(f"mutex_rec{rec}_own{own}_q{nq}_blk{blk}_iss{iss}_{OPS[op]}", "C04/mutex_step.cpp", "harness_mutex_step",
                                             dict(P_REC=rec, P_OWN=own, P_Q=nq, P_BLK=blk, P_ISS=iss, P_OP=op), SRC, unwind=6, cap_s=120))
     return qs
